@@ -118,6 +118,10 @@ def main(argv):
     try:
         env.assert_chameleon_origin()
         mod = importlib.import_module('checks.' + prop.lower())
+        if getattr(mod, 'HOSTILE_HISTORY', True):
+            # every shard starts after a fixed set of hostile predecessor compilations / renderings (vlib/history.py)
+            from vlib import history
+            history.hostile_predecessors(ctx)
         mod.run(ctx)
     except BaseException as exc:
         status = 'crash'
